@@ -53,16 +53,65 @@ func (x *Exec) addArgValues(q *Query, c *Contract, args []Value, pre Heap) {
 					}
 				}
 			}
+		case *IfaceV:
+			// an opaque interface argument: which of the asserted dynamic types it
+			// has in the model, and that value
+			if u.Opaque == "" || u.AltC != nil {
+				return
+			}
+			q.Values = append(q.Values, NamedTerm{"arg:" + name + "#nil", x.ifaceNil(u)})
+			for key, m := range x.asserts {
+				if !strings.HasPrefix(key, u.Opaque+"|") {
+					continue
+				}
+				tn := strings.TrimPrefix(key, u.Opaque+"|")
+				q.Values = append(q.Values, NamedTerm{"argis:" + name + ":" + tn, m[0].(*Term)})
+				if c.ifaceTypes == nil {
+					c.ifaceTypes = map[string]types.Type{}
+				}
+				c.ifaceTypes[name+":"+tn] = x.assertTypes[key]
+				walk(m[1], name+"!"+tn)
+			}
 		case *MapV:
 			q.Values = append(q.Values, NamedTerm{"arg:" + name + "#nil", x.mapNil(u)})
 			if u.Obj != nil {
-				if mv, ok := pre[u.Obj].(*StructV); ok {
+				mvv, okk := pre[u.Obj]
+				if !okk {
+					mvv = x.assertHeap[u.Obj]
+				}
+				if mv, ok := mvv.(*StructV); ok {
 					pres := mv.F[0].(*Term)
 					r := pres
 					for r.Op == "store" {
 						r = r.Args[0]
 					}
 					if r.Op == "var" {
+						// prefer a model whose map has no entries besides the cells the
+						// obligation reads (those are all the replay can rebuild)
+						if ks, _ := mapObjSorts(u.T); ks != nil && len(x.reads[r.Name]) > 0 {
+							kk := b.BoundVar("mk", ks)
+							in := b.False()
+							for _, ix := range x.reads[r.Name] {
+								in = b.Or(in, b.Eq(kk, ix))
+							}
+							q.Prefer = append(q.Prefer, b.Forall([]*Term{kk}, b.Implies(b.Select(pres, kk), in)))
+							// ... and then len(m) is the number of distinct read cells present
+							eff := b.Ite(x.mapNil(u), b.ConstArr(Arr(ks, BoolS()), b.False()), pres)
+							cnt := b.Const(64, 0)
+							rs := x.reads[r.Name]
+							for i, ix := range rs {
+								c := b.And(b.Not(x.mapNil(u)), b.Select(pres, ix))
+								for _, jx := range rs[:i] {
+									c = b.And(c, b.Not(b.Eq(jx, ix)))
+								}
+								cnt = b.Bin("bvadd", cnt, b.Ite(c, b.Const(64, 1), b.Const(64, 0)))
+							}
+							for _, ml := range x.mapLens {
+								if ml.pres == eff {
+									q.Prefer = append(q.Prefer, b.Eq(ml.n, cnt))
+								}
+							}
+						}
 						for k, ix := range x.reads[r.Name] {
 							q.Values = append(q.Values, NamedTerm{fmt.Sprintf("argmap:%s:%d:key", name, k), ix})
 							q.Values = append(q.Values, NamedTerm{fmt.Sprintf("argmap:%s:%d:present", name, k), b.Select(pres, ix)})
@@ -121,48 +170,45 @@ func (ld *Loaded) genFuncReplay(c *Contract, model map[string]uint64, failed []s
 			}
 		}
 	}
-	var callArgs, predArgs []string
-	for i, p := range c.Fn.Params {
-		name := c.Params[i].Name
-		t := p.Type()
+	// build emits the declarations of variable v (and old_v) of type t from the
+	// model entries keyed by key
+	var build func(v, key string, t types.Type) bool
+	build = func(v, key string, t types.Type) bool {
 		ts := typeSrc(t, pkg)
 		switch u := t.Underlying().(type) {
 		case *types.Basic:
-			fmt.Fprintf(&sb, "\t%s := %s\n\t_ = %s\n", name, lit(t, model["arg:"+name]), name)
-			predArgs = append(predArgs, name, name)
+			fmt.Fprintf(&sb, "\t%s := %s\n\t_ = %s\n\told_%s := %s\n\t_ = old_%s\n", v, lit(t, model["arg:"+key]), v, v, v, v)
 		case *types.Struct:
-			fmt.Fprintf(&sb, "\tvar %s %s\n", name, ts)
-			setStruct(t, name, name)
-			fmt.Fprintf(&sb, "\told_%s := %s\n", name, name)
-			predArgs = append(predArgs, name, "old_"+name)
+			fmt.Fprintf(&sb, "\tvar %s %s\n", v, ts)
+			setStruct(t, v, key)
+			fmt.Fprintf(&sb, "\told_%s := %s\n", v, v)
 		case *types.Pointer:
 			if _, ok := u.Elem().Underlying().(*types.Struct); ok {
-				fmt.Fprintf(&sb, "\t%s := new(%s)\n", name, typeSrc(u.Elem(), pkg))
-				setStruct(u.Elem(), name, name+"*")
-				fmt.Fprintf(&sb, "\told_%s := new(%s)\n\t*old_%s = *%s\n", name, typeSrc(u.Elem(), pkg), name, name)
+				fmt.Fprintf(&sb, "\t%s := new(%s)\n", v, typeSrc(u.Elem(), pkg))
+				setStruct(u.Elem(), v, key+"*")
+				fmt.Fprintf(&sb, "\told_%s := new(%s)\n\t*old_%s = *%s\n", v, typeSrc(u.Elem(), pkg), v, v)
 			} else if _, ok := u.Elem().Underlying().(*types.Basic); ok {
-				fmt.Fprintf(&sb, "\t%s := new(%s)\n\t*%s = %s\n", name, typeSrc(u.Elem(), pkg), name, lit(u.Elem(), model["arg:"+name+"*"]))
-				fmt.Fprintf(&sb, "\told_%s := new(%s)\n\t*old_%s = *%s\n", name, typeSrc(u.Elem(), pkg), name, name)
+				fmt.Fprintf(&sb, "\t%s := new(%s)\n\t*%s = %s\n", v, typeSrc(u.Elem(), pkg), v, lit(u.Elem(), model["arg:"+key+"*"]))
+				fmt.Fprintf(&sb, "\told_%s := new(%s)\n\t*old_%s = *%s\n", v, typeSrc(u.Elem(), pkg), v, v)
 			} else {
-				return "", false
+				return false
 			}
-			predArgs = append(predArgs, name, "old_"+name)
 		case *types.Slice:
-			n := sext64(model["arg:"+name+"#len"], 64)
+			n := sext64(model["arg:"+key+"#len"], 64)
 			if n < 0 || n > 1<<20 {
-				return "", false
+				return false
 			}
-			fmt.Fprintf(&sb, "\t%s := make(%s, %d)\n", name, ts, n)
+			fmt.Fprintf(&sb, "\t%s := make(%s, %d)\n", v, ts, n)
 			cellsSet := map[uint64]uint64{}
 			for k := 0; k < 16 && int64(k) < n; k++ {
-				if v, ok := model[fmt.Sprintf("arg:%s[%d]", name, k)]; ok {
-					cellsSet[uint64(k)] = v
+				if val, ok := model[fmt.Sprintf("arg:%s[%d]", key, k)]; ok {
+					cellsSet[uint64(k)] = val
 				}
 			}
-			for key, v := range model {
-				if strings.HasPrefix(key, "argcell:"+name+":") && strings.HasSuffix(key, ":idx") {
-					if val, ok := model[strings.TrimSuffix(key, ":idx")+":val"]; ok && int64(v) < n {
-						cellsSet[v] = val
+			for mk, mv := range model {
+				if strings.HasPrefix(mk, "argcell:"+key+":") && strings.HasSuffix(mk, ":idx") {
+					if val, ok := model[strings.TrimSuffix(mk, ":idx")+":val"]; ok && int64(mv) < n {
+						cellsSet[mv] = val
 					}
 				}
 			}
@@ -172,29 +218,65 @@ func (ld *Loaded) genFuncReplay(c *Contract, model map[string]uint64, failed []s
 			}
 			sort.Slice(ks, func(i, j int) bool { return ks[i] < ks[j] })
 			for _, k := range ks {
-				fmt.Fprintf(&sb, "\t%s[%d] = 0x%x\n", name, k, cellsSet[k])
+				fmt.Fprintf(&sb, "\t%s[%d] = 0x%x\n", v, k, cellsSet[k])
 			}
-			fmt.Fprintf(&sb, "\told_%s := append(%s(nil), %s...)\n", name, ts, name)
-			predArgs = append(predArgs, name, "old_"+name)
+			fmt.Fprintf(&sb, "\told_%s := append(%s(nil), %s...)\n", v, ts, v)
 		case *types.Map:
-			if model["arg:"+name+"#nil"] != 0 {
-				fmt.Fprintf(&sb, "\tvar %s %s\n", name, ts)
+			if model["arg:"+key+"#nil"] != 0 {
+				fmt.Fprintf(&sb, "\tvar %s %s\n", v, ts)
 			} else {
-				fmt.Fprintf(&sb, "\t%s := %s{}\n", name, ts)
+				fmt.Fprintf(&sb, "\t%s := %s{}\n", v, ts)
 			}
-			for key, k := range model {
-				if strings.HasPrefix(key, "argmap:"+name+":") && strings.HasSuffix(key, ":key") {
-					base := strings.TrimSuffix(key, ":key")
-					if model[base+":present"] != 0 && model["arg:"+name+"#nil"] == 0 {
-						fmt.Fprintf(&sb, "\t%s[0x%x] = 0x%x\n", name, k, model[base+":val"])
+			var lines []string
+			for mk, k := range model {
+				if strings.HasPrefix(mk, "argmap:"+key+":") && strings.HasSuffix(mk, ":key") {
+					base := strings.TrimSuffix(mk, ":key")
+					if model[base+":present"] != 0 && model["arg:"+key+"#nil"] == 0 {
+						lines = append(lines, fmt.Sprintf("\t%s[0x%x] = 0x%x\n", v, k, model[base+":val"]))
 					}
 				}
 			}
-			fmt.Fprintf(&sb, "\tvar old_%s %s\n\tif %s != nil {\n\t\told_%s = %s{}\n\t\tfor k, v := range %s {\n\t\t\told_%s[k] = v\n\t\t}\n\t}\n", name, ts, name, name, ts, name, name)
-			predArgs = append(predArgs, name, "old_"+name)
+			sort.Strings(lines)
+			sb.WriteString(strings.Join(lines, ""))
+			fmt.Fprintf(&sb, "\tvar old_%s %s\n\tif %s != nil {\n\t\told_%s = %s{}\n\t\tfor k, v := range %s {\n\t\t\told_%s[k] = v\n\t\t}\n\t}\n", v, ts, v, v, ts, v, v)
+		case *types.Interface:
+			// the dynamic type the model chose among those the code asks about
+			fmt.Fprintf(&sb, "\tvar %s, old_%s %s\n", v, v, ts)
+			if model["arg:"+key+"#nil"] != 0 {
+				return true
+			}
+			var tns []string
+			for k := range c.ifaceTypes {
+				if strings.HasPrefix(k, key+":") && model["argis:"+k] != 0 {
+					tns = append(tns, strings.TrimPrefix(k, key+":"))
+				}
+			}
+			sort.Strings(tns)
+			if len(tns) == 0 {
+				if it, ok := t.Underlying().(*types.Interface); !ok || it.NumMethods() > 0 {
+					return false // (no value of a foreign type at hand that implements it)
+				}
+				// none of the asserted types: any other value will do
+				fmt.Fprintf(&sb, "\t%s, old_%s = struct{ vsOther int }{}, struct{ vsOther int }{}\n", v, v)
+				return true
+			}
+			dt := c.ifaceTypes[key+":"+tns[0]]
+			if dt == nil || !build(v+"_dyn", key+"!"+tns[0], dt) {
+				return false
+			}
+			fmt.Fprintf(&sb, "\t%s, old_%s = %s_dyn, old_%s_dyn\n", v, v, v, v)
 		default:
+			return false
+		}
+		return true
+	}
+	var callArgs, predArgs []string
+	for i, p := range c.Fn.Params {
+		name := c.Params[i].Name
+		if !build(name, name, p.Type()) {
 			return "", false
 		}
+		predArgs = append(predArgs, name, "old_"+name)
 		if i > 0 || c.Fn.Signature.Recv() == nil {
 			if c.Fn.Signature.Variadic() && i == len(c.Fn.Params)-1 {
 				callArgs = append(callArgs, name+"...")
